@@ -10,7 +10,7 @@ def P(quick_runs, thorough_runs, level="exploration", quick_budget=40, thorough_
 PROPS = {
     "C06": P(160000, 3000000, expect_reach=["c06.gates_released_after_join_issued", "c06.main_scheds_replaced_by_units", "c06.pool_reuse_units_released_after_join", "c06.priv_pool_joins"],
              assumptions=["blocked units are released by an external thread only after the join/finalize that has to wait for them was issued; nobody pushes to a pool whose only stream is being joined", "scenario yield_to-race: as for C11"]),
-    "C07": P(300000, 6000000, expect_reach=["pool.pop_gives_up_became_empty", "pool.removes_refused_unit_gone", "lin.decided", "pool.empty_pops", "pool.blocking_pop_got_unit"],
+    "C07": P(300000, 6000000, expect_reach=["pool.pop_gives_up_became_empty", "pool.removes_refused_unit_gone", "lin.decided", "pool.empty_pops", "pool.blocking_pop_got_unit", "pool.big_batches"],
              assumptions=["clients respect the producer/consumer counts of the access mode; ABT_pool_remove is issued for a unit whose push has returned: by the sole consumer (it must succeed), or racing with the other consumers' pops (it may be refused, and then the unit was not in the pool at the linearisation point)",
                           "histories <= 48 operations, search capped at 1e6 nodes (undecided histories are counted, never passed or failed)"]),
     "C08": P(160000, 3000000, expect_reach=["c08.lapping_entries", "c08.xbarrier_rounds_with_external_threads"], assumptions=["ABT_barrier_reinit is called only while nobody waits (API precondition)"]),
